@@ -156,7 +156,7 @@ EB_ACK = {'name': 'acktimeout', 'crate': 'gneiss-mqtt', 'module_dir': 'gneiss_mq
 PROPS['C18']['eb'].append(EB_ACK)
 
 EB_WIRE_OUT = {'name': 'wire-out', 'crate': 'gneiss-mqtt', 'module_dir': 'gneiss_mqtt', 'filters': ['wire::outbound'], 'tests': ['outbound_encoding_framing_fragmentation_roundtrip'], 'timeout': 3000}
-EB_WIRE_IN = {'name': 'wire-in', 'crate': 'gneiss-mqtt', 'module_dir': 'gneiss_mqtt', 'filters': ['wire::inbound'], 'tests': ['inbound_decoding_chunking_size_limit_no_panic'], 'timeout': 3000}
+EB_WIRE_IN = {'name': 'wire-in', 'crate': 'gneiss-mqtt', 'module_dir': 'gneiss_mqtt', 'filters': ['wire::inbound', 'wire::engine_packet'], 'tests': ['inbound_decoding_chunking_size_limit_no_panic', 'engine_packet_events_and_verdict_are_chunking_invariant'], 'timeout': 3000}
 EB_INBOUND = {'name': 'inbound', 'crate': 'gneiss-mqtt', 'module_dir': 'gneiss_mqtt', 'filters': ['inbound::'], 'tests': ['inbound_publishes_acked_and_surfaced_exactly_once'], 'timeout': 3000}
 PROPS['C02']['eb'].append(EB_WIRE_OUT)
 PROPS['C03']['eb'] = [EB_WIRE_IN]
